@@ -281,6 +281,8 @@ def _raw(ctx: Ctx, c: Collector) -> None:
             pr.append(f"nothing is forwarded to self.{fld}.{meth}")
         replies = {("await", e.term) for e in fwd}
         aliases = {b.term[1] for b in s.of_kind("bind") if T.strip(b.term[2]) in replies}
+        if fwd and not s.returns:
+            pr.append(f"{what} is received but not returned: the caller gets None")
         for r in s.returns:
             v = unalias(T.strip(r.term), s, fi)
             if v in replies or v in aliases or (v == T.NONE and r.term == T.NONE and qn.endswith("V2ToV1Adapter.send")):
